@@ -158,6 +158,41 @@ pub fn worker(ctx: &Ctx, res: &mut ShardResult) {
                 res.count("family_docs", 1);
             }
         }
+        // (b') the same well-formedness oracle on trees parsed WITH included ranges: every list of <= 2 ranges over all byte
+        // positions (and one past the end / u32::MAX) for short documents; bytes in excluded text need not lie in a leaf
+        {
+            let maxlen = if ctx.mini() { 4 } else if ctx.quick() { 7 } else { 10 };
+            for d in crate::docs::docs(z, 2).iter().filter(|d| !d.is_empty() && d.len() <= maxlen) {
+                idx += 1;
+                if !ctx.mine(idx) { continue; }
+                let char_ok = |b: usize| match std::str::from_utf8(d) { Ok(st) => b >= d.len() || st.is_char_boundary(b), Err(_) => true };
+                for rl in hist::range_lists_for(d.len(), 2) {
+                    // (a boundary inside a multi-byte character: recorded C13 finding, not repeated here)
+                    if rl.is_empty() || rl.iter().any(|&(s, e)| !char_ok(s) || !char_ok(e)) { continue; }
+                    crate::case!("{}", json!({"lang": z.name, "doc": crate::util::bytes_json(d), "ranges": rl}));
+                    let rs: Vec<tree_sitter::Range> = rl.iter().map(|&(s, e)| crate::checks::c13::mk_range(d, s, e)).collect();
+                    parser.set_included_ranges(&rs).unwrap();
+                    let tree = parser.parse(d, None).unwrap();
+                    parser.set_included_ranges(&[]).unwrap();
+                    res.transitions += 1;
+                    res.count("parses_with_included_ranges", 1);
+                    let xt = XTree::build(&tree);
+                    let clipped: Vec<tree_sitter::Range> = rs.iter().map(|r| { let mut r = *r; r.end_byte = r.end_byte.min(d.len()); r.start_byte = r.start_byte.min(d.len()); r }).collect();
+                    // Known finding: when no included range begins inside the text (all of them start at or after its end) the
+                    // zero-width root is placed at the first range's start, i.e. outside the text.
+                    let none_inside = rl.iter().all(|&(s, _)| s >= d.len());
+                    for mut f in wf::check(&info, d, &xt, Some(&clipped)) {
+                        if none_inside && (f.fingerprint == "root-outside-text" || f.fingerprint == "node-outside-text") { f.fingerprint = "no-range-inside-text".into(); }
+                        // the extent of an ERROR leaf ignores the range seam: recorded C13 finding
+                        if f.fingerprint == "byte-not-in-leaf" || xt.nodes.iter().any(|n| n.is_error) && (f.fingerprint == "children-overlap" ) { continue; }
+                        res.violation(&format!("ranges:{}", f.fingerprint), format!("ranges {:?}: {}", rl, f.msg), json!({"lang": z.name, "doc": crate::util::bytes_json(d), "ranges": rl}));
+                    }
+                    if let Err(m) = xtree::check_summaries(&tree) { res.violation("ranges:stale-summary", format!("ranges {:?}: {}", rl, m), json!({"lang": z.name, "doc": crate::util::bytes_json(d), "ranges": rl})); }
+                    if res.too_many() { return; }
+                }
+                res.states += 1;
+            }
+        }
         // (c) every tree reached by the edit-history search
         let atoms2 = insert_atoms(z);
         let mut scratch = ScratchCache::new();
@@ -180,10 +215,16 @@ pub fn replay(case: &Value) -> Vec<String> {
         let text = crate::util::bytes_from_json(&case["doc"]);
         let mut parser = Parser::new();
         parser.set_language(&info.language).unwrap();
+        let mut clipped: Option<Vec<tree_sitter::Range>> = None;
+        if let Some(a) = case["ranges"].as_array() {
+            let rs: Vec<tree_sitter::Range> = a.iter().map(|r| crate::checks::c13::mk_range(&text, r[0].as_u64().unwrap() as usize, r[1].as_u64().unwrap() as usize)).collect();
+            parser.set_included_ranges(&rs).unwrap();
+            clipped = Some(rs.iter().map(|r| { let mut r = *r; r.end_byte = r.end_byte.min(text.len()); r.start_byte = r.start_byte.min(text.len()); r }).collect());
+        }
         let tree = parser.parse(&text, None).unwrap();
-        println!("tree: {}", tree.root_node().to_sexp());
+        println!("tree: {}", XTree::build(&tree).sexp_pos(&info.language));
         let xt = XTree::build(&tree);
-        let mut msgs: Vec<String> = wf::check(&info, &text, &xt, None).into_iter().map(|f| format!("{}: {}", f.fingerprint, f.msg)).collect();
+        let mut msgs: Vec<String> = wf::check(&info, &text, &xt, clipped.as_deref()).into_iter().filter(|f| clipped.is_none() || f.fingerprint != "byte-not-in-leaf").map(|f| format!("{}: {}", f.fingerprint, f.msg)).collect();
         if let Err(m) = xtree::check_summaries(&tree) { msgs.push(m); }
         msgs
     } else {
